@@ -35,6 +35,10 @@ claimed = {
          "Theorem eval_eq_sem: for every if-feature expression of the RFC 7950 grammar (unbounded size/nesting) and every feature assignment, evaluate(tokens e) = sem e — by mutual structural induction over the grammar with a fuel-monotonicity and fuel-sufficiency argument; cache transparency, allow/deny/all-on configurations, several-if-feature conjunction; witnesses of the pinned tree's defects. Tie: ALL expressions with ≤3 (quick) / ≤4 (thorough) operators × 2 renderings × 8 assignments loaded as guarded leaves and compared with model and Spec; all token sequences up to length 4/5 as malformed stream against the RFC recogniser; every guardable statement kind; one deviation of each kind with a frame check on the full schema dump.",
          "Trusted: Lean kernel, harness; tokenizer model tied by the renderings only; parseRFC (Spec recogniser) not proved complete; guard_iff_present and deviation exactness are carried by the correspondence (finite, enumerated), not by a theorem.",
          "DESIGN.md §8 C11"),
+ "C12": ("Lean 4 theorems over a bracket model of editor.enter / beginEdit / endEdit / Delete (scenario tree replayed with callback k failing), by mutual structural induction over the scenario; exhaustive fault enumeration per scenario against recording, fault-injecting reference stores",
+         "Theorems (every scenario tree of any nesting and bubbling depth, every failing position k, every node x): the running Begin/End balance of x never goes negative and ends at zero (each successful Begin is followed by exactly one End before the call returns); the call succeeds iff no callback failed; after the failing callback only End notifications follow; witnesses of the pinned tree's missing Ends. Tie: each generated scenario (upsert/insert/update/replace/delete × entry point with 0–3 ancestors) runs fault-free to learn K and its bracket tree, then K times with callback k failing; every faulted trace and result must equal the model's, and errors.As must find the injected error.",
+         "Trusted: Lean kernel, harness, recording reference stores; the scenario tree is parsed from the real fault-free trace (so the model predicts faulted runs from the fault-free one). Not covered: Choose callbacks (no choices in these scenarios; target Choose errors are swallowed by design of clearOnDifferentChoiceCase), trigger-table callbacks, scenarios whose fault-free run fails (conflict/not-found).",
+         "DESIGN.md §8 C12"),
  "C17": ("Lean 4 theorems over the Compare/lookup model; go/ast translator regenerates the Compare-shape table the theorems quantify over; differential correspondence against val.Compare/Equal/CompareVals and Find on slice-backed lists",
          "Theorems (all operand widths, all operands, all key lists): every Compare shape found in val/types.go has the sign of the mathematical difference; equality is an equivalence, order a strict total order; CompareVals is lexicographic; sort.Search+EqualVals and the linear scan return exactly the entry with the requested key. Tie: table regenerated from source on every run and closed by `decide`; 8-bit types compared exhaustively with the model, wider ones on boundary squares.",
          "Trusted: Lean kernel, extractor (regex classification of gofmt-normalised method bodies; unknown shape = opaque = obligation fails), harness; sort.Sort contract, IEEE-754 for Decimal64, enum ids within int32.",
